@@ -261,14 +261,17 @@ def _expect_text(d: dict, custom: bool, label: bool, ext_helpers: set) -> dict:
     def conv_kv(kv: dict) -> dict:
         kv = dict(kv)
         typ = kv['type']
-        kv['disp_name'] = kv['name'] if typ == 'SPAWNFLAGS' else _txt(kv['disp_name'], custom)  # T2
+        # T2 (the name field of a spawnflags key is only written when a default or description follows it)
+        kv['disp_name'] = kv['name'] if typ == 'SPAWNFLAGS' and not (kv['default'] or kv['desc']) \
+            else _txt(kv['disp_name'], custom)
+        kv['default'] = _txt(kv['default'], custom)  # P3 also applies to defaults (they are escaped like other texts)
         kv['desc'] = _txt(kv['desc'], custom)
         if typ == 'BOOL':  # T3
             low = kv['default'].casefold()
             kv['default'] = '0' if low in ('', 'no') else '1' if low == 'yes' else kv['default']
         if typ == 'CHOICES':
             kv['val_list'] = [
-                [value, name.replace('\n', ' ') if custom else _txt(name.replace('\n', ' '), False),
+                [_txt(value, custom), name.replace('\n', ' ') if custom else _txt(name.replace('\n', ' '), False),
                  tags if custom else []]
                 for value, name, tags in (kv['val_list'] or [])
             ]
@@ -301,8 +304,12 @@ def _sanitise_plain(fgd: Any) -> None:
         for tmap in ent.keyvalues.values():
             for kv in tmap.values():
                 kv.disp_name, kv.desc = fix(kv.disp_name), fix(kv.desc)
+                if isinstance(kv.default, str):
+                    kv.default = fix(kv.default)
                 if kv.val_list:
-                    kv.val_list = [v[:1] + (fix(v[1]),) + v[2:] for v in kv.val_list]
+                    # (choices: value and name are strings; spawnflags: the first item is the number)
+                    kv.val_list = [((fix(v[0]) if isinstance(v[0], str) else v[0]),) + (fix(v[1]),) + v[2:]
+                                   for v in kv.val_list]
         for cat in (ent.inputs, ent.outputs):
             for tmap in cat.values():
                 for io_def in tmap.values():
@@ -1126,8 +1133,8 @@ TARGETED: list = [
     ('split_before_escape_ok', lambda: _one(_kv('a', desc='a' * 1000 + '\n' + 'b' * 50))),
     ('split_in_io_desc', _t_io('VOID', 'a' * 999 + '\t' + 'b' * 5)),
     ('split_in_flag_name', lambda: _one(_kv('spawnflags', 'SPAWNFLAGS', 'spawnflags', vals=[(1, 'n' * 995 + '"' + 'z', True, frozenset())]))),
-    ('key_named_input', lambda: _one(_kv('input', 'INT', 'Input', '1'))),
-    ('key_named_output', lambda: _one(_kv('a'), _kv('Output', 'STRING', 'Out'))),
+    # (a keyvalue literally named `input` / `output` cannot be expressed in the FGD syntax - the line would be an I/O
+    #  definition - so it is a representability restriction, not a corner case)
     ('key_named_readonly_report', lambda: _one(_kv('readonly', 'INT', 'R', '1', readonly=True), _kv('report', reportable=True))),
     ('choices_empty_strings', lambda: _one(_kv('a', 'CHOICES', 'A', '', '', [('', 'Nothing', frozenset()), ('x', '', frozenset()), ('y', 'Y', frozenset())]))),
     ('choices_empty_name_last', lambda: _one(_kv('a', 'CHOICES', 'A', '', '', [('x', '', frozenset())]))),
